@@ -53,28 +53,60 @@ def run(ctx):
                       'period-7 broken', construct='period:%s[%d]' % (key, i + 7))
     ctx.minimum('C17-cycle', 60)
 
-    # ---- C17-window: loop shape + windows
+    # ---- C17-window: for each (weekday of cd, target weekday) the search is followed by abstract interpretation
+    # with the table contents known: it terminates, every table subscript is in bounds, and the argument is moved by
+    # the number of days to the first later (earlier) day with the target weekday.
+    from ..absint import AI, Observer, St, Int, I
+    from ..frontend import params_of, ancestors
+
+    class _W(Observer):
+        wants_uninlined = True
+
+        def __init__(self, fn):
+            self.fn = fn
+            self.moves = []
+            self.subs = []
+
+        def call(self, ai, site, fkey, args, st):
+            if any(a is self.fn for a in ancestors(site)) and fkey[0].split('::')[-1] in ('operator+', 'operator-') and \
+                    len(args) == 2 and args[1][0] == 'val':
+                self.moves.append((fkey[0].split('::')[-1], args[1][1]))
+
+        def subscript(self, ai, e, ext, idx, st):
+            if any(a is self.fn for a in ancestors(e)):
+                self.subs.append((e, ext, idx))
     for key, fname_ in (('forw', 'cctz::detail::next_weekday'), ('back', 'cctz::detail::prev_weekday')):
         d, tv = T[key]
-        u, f = ctx.fn(fname_)
-        shape = loop_search_shape(ctx, u, f, d)
-        ctx.check(shape['ok'], 'C17-window', '%s: find-first loops i=0.., j=i+1.. over %s' % (fname_, d['name']), f,
-                  'the search loops do not have the counted find-first shape (%s): termination/bounds argument lost'
-                  % shape['why'], construct='shape:%s' % key, detail=shape['detail'])
-        L = len(tv)
-        for i in range(7):
-            win = tv[i + 1:i + 8]
-            ok = i + 7 < L and sorted(win) == list(range(7))
-            ctx.check(ok, 'C17-window', '%s window [%d..%d] holds every weekday and is in bounds (extent %d)'
-                      % (d['name'], i + 1, i + 7, L), d,
-                      'the inner search starting after index %d can run past the table (extent %d) or miss a weekday'
-                      % (i, L), construct='window:%s[%d]' % (key, i), detail=str(win))
-        # step sign: forward adds, backward subtracts j - i
-        ctx.check(shape.get('sign') == (1 if key == 'forw' else -1), 'C17-window',
-                  '%s returns cd %s (j - i)' % (fname_, '+' if key == 'forw' else '-'), f,
-                  'the result is not the argument moved by j-i days in the search direction', construct='sign:%s' % key,
-                  detail='j - i in [1,7]')
-    ctx.minimum('C17-window', 18)
+        k_ = ctx.G.one(fname_)
+        u, f = ctx.G.defs[k_]
+        ps = params_of(f)
+        for b in range(7):
+            bad = []
+            n_sub = 0
+            for w in range(7):
+                o = _W(f)
+                ai = AI(ctx.G, o, assume_returns={'cctz::detail::get_weekday': I(b)}, unroll=lambda f_: True, unroll_cap=40,
+                        inline=lambda k__: False)
+                st = St()
+                st.refs[ps[0]['id']] = ('CD',)
+                st.mem[(ps[1]['id'],)] = I(w)
+                res = ai.analyse(k_, st)
+                want = ((w - b - 1) % 7 + 1) if key == 'forw' else ((b - w - 1) % 7 + 1)
+                op = 'operator+' if key == 'forw' else 'operator-'
+                n_sub += len(o.subs)
+                if not res:
+                    bad.append('%s->%s: the search does not come to an end' % (names[b], names[w]))
+                elif [m for m in o.moves if not (m[0] == op and isinstance(m[1], Int) and m[1].const() == want)] or not o.moves:
+                    bad.append('%s->%s: moves by %s, the calendar says %s%d' % (
+                        names[b], names[w], ', '.join('%s%s' % (m[0][-1], m[1]) for m in o.moves) or 'nothing', op[-1], want))
+                for (e, ext, idx) in o.subs:
+                    if not (idx.lo >= 0 and idx.hi < ext):
+                        bad.append('%s->%s: subscript %s of a table of extent %d' % (names[b], names[w], idx, ext))
+            ctx.check(not bad and n_sub >= 7, 'C17-window', '%s from a %s: every target weekday is reached by the right number of days, '
+                      'all table subscripts in bounds' % (fname_.split('::')[-1], names[b]), f,
+                      'the table search is wrong for: %s' % '; '.join(bad[:4]), construct='window:%s[%d]' % (key, b),
+                      detail='%d subscripts followed' % n_sub)
+    ctx.minimum('C17-window', 14)
 
     # ---- C17-range / C17-yearday by abstract interpretation on specification-chosen partitions
     from ..absint import AI, Observer, St, Int, vjoin
